@@ -642,6 +642,13 @@ def gen_raw_cases(ctx, round):
             fields.append({"name": "f%d" % k, "t": t, "o": "<", "shape": [] if r.random() < 0.8 else [2]})
         nrows = r.randint(1, 4)
         mal = mals[i % len(mals)]
+        # a malformation can shift a token into ANY field of the table.  glibc's integer conversions saturate out-of-range
+        # tokens (strtol/strtoul) and then truncate to the field width, which the scanner model does not describe (it wraps):
+        # out-of-range integer tokens are outside the scanner model.  Every integer token therefore lies inside the range of
+        # EVERY integer field of its table.
+        int_ts = [f["t"] for f in fields if f["t"][0] in "iu"]
+        ilo = max([int_range(t)[0] for t in int_ts] or [0])
+        ihi = min([int_range(t)[1] for t in int_ts] or [0])
         cells = []                                   # [row][flat cell] = (type, bytes)
         for _ in range(nrows):
             row = []
@@ -655,7 +662,7 @@ def gen_raw_cases(ctx, round):
                     elif t == "f4":
                         el = gen_f4(r)
                     else:
-                        el = gen_int(r, t)
+                        el = min(max(gen_int(r, t), ilo), ihi)
                     row.append([t, cell_text_py(t, el)])
             cells.append(row)
         num = [(i2, j) for i2, row in enumerate(cells) for j, (t, _) in enumerate(row) if t[0] != "S"]
